@@ -89,6 +89,30 @@ var c15BinCheap = []binOp{
 var c15BinCostly = []binOp{
 	{"Div", func(z, x, y *fr.Element) { z.Div(x, y) }, func(x, y *big.Int) *big.Int { return ref.FrMul(x, ref.FrInv(y)) }},
 	{"Exp", func(z, x, y *fr.Element) { var e big.Int; y.ToBigIntRegular(&e); z.Exp(*x, &e) }, func(x, y *big.Int) *big.Int { return new(big.Int).Exp(x, y, ref.R) }},
+	// exponents wider than the field: y + k*(r-1) and multiples of r-1 (Fermat: x^(r-1) = 1 for x != 0)
+	{"ExpWide", func(z, x, y *fr.Element) { z.Exp(*x, wideExp(valueOf(y))) }, func(x, y *big.Int) *big.Int { return new(big.Int).Exp(x, wideExp(y), ref.R) }},
+}
+
+// wideExp turns a field value into a non-negative exponent of up to ~512 bits, by a rule that depends on its low bits.
+func wideExp(y *big.Int) *big.Int {
+	rm1 := new(big.Int).Sub(ref.R, big.NewInt(1))
+	switch y.Bit(0) + 2*y.Bit(1) + 4*y.Bit(2) {
+	case 0:
+		return new(big.Int).Lsh(rm1, 1) // 2(r-1)
+	case 1:
+		return new(big.Int).Add(y, new(big.Int).Lsh(rm1, 1))
+	case 2:
+		return new(big.Int).Lsh(rm1, 64)
+	case 3:
+		return new(big.Int).Mul(rm1, rm1)
+	case 4:
+		return new(big.Int).Add(new(big.Int).Mul(rm1, big.NewInt(3)), big.NewInt(int64(y.Bit(5)+1)))
+	case 5:
+		return new(big.Int).Lsh(y, 130)
+	case 6:
+		return new(big.Int).Set(rm1)
+	}
+	return new(big.Int).Add(y, rm1)
 }
 
 type unOp struct {
@@ -404,7 +428,7 @@ func genC15(t *rapid.T) c15Case {
 	c := c15Case{Op: rapid.SampledFrom(names).Draw(t, "op"), X: genRawOperand(t, "x"), Y: genRawOperand(t, "y"), Alias: rapid.IntRange(0, 4).Draw(t, "alias")}
 	switch c.Op {
 	case "batchinvert":
-		n := rapid.SampledFrom([]int{0, 1, 2, 3, 8, 255, 256, 257}).Draw(t, "veclen")
+		n := rapid.SampledFrom([]int{0, 1, 2, 3, 8, 255, 256, 257, 511, 512, 513, 1500}).Draw(t, "veclen")
 		if rapid.Bool().Draw(t, "veclen_any") {
 			n = rapid.IntRange(0, 40).Draw(t, "veclen_n")
 		}
@@ -605,7 +629,7 @@ func TestC15(t *testing.T) {
 		if !sharded(i/7) || s.Failed() || s.Aborted() {
 			continue
 		}
-		n := []int{0, 1, 2, 5, 33, 256}[(i/7)%6]
+		n := []int{0, 1, 2, 5, 33, 256, 511, 512, 513, 1024, 2048, 5000}[(i/7)%12]
 		vec := make([]fr.Element, n)
 		var hexes []string
 		for k := range vec {
